@@ -6,6 +6,7 @@
 //	cfgvalidate <docs.ndjson> <out.ndjson>
 //	cfgvalidate seq <sequences.ndjson> <out.ndjson>  (documents loaded one after the other in ONE process, one goroutine:
 //	                                                 input line {"docs": [text..], "types": {..}}, output line {"i", "loads": [output..]})
+//	cfgvalidate builtin <docs.ndjson> <out.ndjson>   (builtin.go: real otlphttp exporter / otlp receiver configs with secrets)
 //	cfgvalidate walk <trees.ndjson> <out.ndjson>     (walk.go: xconfmap.Validate on generated value trees)
 //
 // input line:  {"doc": "<yaml/json text>", "types": {"receivers":[..],"processors":[..],"exporters":[..],"connectors":[..],"extensions":[..]}}
@@ -19,10 +20,12 @@ import (
 	"fmt"
 	"os"
 	"runtime"
+	"strings"
 	"sync"
 	"sync/atomic"
 
 	"go.opentelemetry.io/collector/component"
+	"go.opentelemetry.io/collector/config/configopaque"
 	"go.opentelemetry.io/collector/confmap"
 	"go.opentelemetry.io/collector/confmap/provider/yamlprovider"
 	"go.opentelemetry.io/collector/confmap/xconfmap"
@@ -38,6 +41,41 @@ type input struct {
 	Doc   string              `json:"doc"`
 	Types map[string][]string `json:"types"`
 	Eff   bool                `json:"eff"` // also marshal the effective configuration (seq mode)
+	// secret texts the document wrote: none of them may occur anywhere in the marshalled effective configuration
+	Needles []string `json:"needles,omitempty"`
+}
+
+type leak struct {
+	Needle string `json:"needle"`
+	Path   string `json:"path"`
+}
+
+// findLeaks searches the whole effective configuration tree (keys and values) for the needles.
+func findLeaks(x any, path string, needles []string, out *[]leak) {
+	hit := func(s, p string) {
+		for _, n := range needles {
+			if n != "" && strings.Contains(s, n) {
+				*out = append(*out, leak{Needle: n, Path: p})
+			}
+		}
+	}
+	switch v := x.(type) {
+	case map[string]any:
+		for k, e := range v {
+			hit(k, path+"::"+k+" (key)")
+			findLeaks(e, path+"::"+k, needles, out)
+		}
+	case []any:
+		for i, e := range v {
+			findLeaks(e, fmt.Sprintf("%s::%d", path, i), needles, out)
+		}
+	case nil:
+	default:
+		hit(fmt.Sprintf("%v", v), path)
+		if s, ok := v.(string); ok {
+			hit(s, path)
+		}
+	}
 }
 
 type output struct {
@@ -51,6 +89,7 @@ type output struct {
 	// to service::telemetry::{logs,metrics} and the component sections
 	Eff    map[string]any `json:"eff,omitempty"`
 	EffErr string         `json:"eff_err,omitempty"`
+	Leaks  []leak         `json:"leaks,omitempty"` // needles found in the effective configuration (whole tree + its yaml/json rendering)
 }
 
 // normNil turns typed nil slices into empty lists: Conf.ToStringMap hands out []any(nil) for an empty list, which
@@ -74,12 +113,21 @@ func normNil(x any) any {
 	return x
 }
 
-func effOf(cfg *otelcol.Config) (map[string]any, error) {
+func effOf(cfg *otelcol.Config, needles []string) (map[string]any, []leak, error) {
 	conf := confmap.New()
 	if err := conf.Marshal(cfg); err != nil {
-		return nil, err
+		return nil, nil, err
 	}
 	m := conf.ToStringMap()
+	var leaks []leak
+	findLeaks(m, "", needles, &leaks)
+	if b, err := json.Marshal(m); err == nil { // and in a rendering of the whole thing, whatever the tree walk may have missed
+		for _, n := range needles {
+			if n != "" && strings.Contains(string(b), n) && len(leaks) == 0 {
+				leaks = append(leaks, leak{Needle: n, Path: "(rendered)"})
+			}
+		}
+	}
 	out := map[string]any{}
 	for _, k := range []string{"receivers", "processors", "exporters", "connectors", "extensions"} {
 		if v, ok := m[k]; ok {
@@ -94,7 +142,7 @@ func effOf(cfg *otelcol.Config) (map[string]any, error) {
 			}
 		}
 	}
-	return normNil(out).(map[string]any), nil
+	return normNil(out).(map[string]any), leaks, nil
 }
 
 // compCfg is the configuration of every test component: a few real fields, a nested struct and a map of
@@ -122,6 +170,69 @@ type compCfg struct {
 	Opt    *optCfg           `mapstructure:"opt" json:"opt"`
 	Labels map[string]string `mapstructure:"labels" json:"labels"`
 	Hosts  []string          `mapstructure:"hosts" json:"hosts"`
+	// secret-typed settings in every container position the encoder distinguishes, and two non-secret ones for contrast
+	Secret    configopaque.String            `mapstructure:"secret" json:"-"`
+	SecretPtr *configopaque.String           `mapstructure:"secret_ptr" json:"-"`
+	Secrets   []configopaque.String          `mapstructure:"secrets" json:"-"`
+	SecretMap map[string]configopaque.String `mapstructure:"secret_map" json:"-"`
+	Rows      map[string]SecRow              `mapstructure:"rows" json:"-"`
+	RowList   []SecRow                       `mapstructure:"row_list" json:"-"`
+	Creds     `mapstructure:",squash" json:"-"`
+	Public    string            `mapstructure:"public" json:"-"`
+	PublicMap map[string]string `mapstructure:"public_map" json:"-"`
+}
+
+// SecRow is a struct holding a secret, used as map value and slice element.
+type SecRow struct {
+	Token configopaque.String `mapstructure:"token" json:"-"`
+}
+
+// Creds is embedded (squash) in compCfg.
+type Creds struct {
+	Password configopaque.String `mapstructure:"password" json:"-"`
+}
+
+// secView shows the CLEAR TEXT the typed configuration holds (cast to string, the documented way to read a secret).
+type secView struct {
+	Secret    string            `json:"secret"`
+	SecretPtr *string           `json:"secret_ptr"`
+	Secrets   []string          `json:"secrets"`
+	SecretMap map[string]string `json:"secret_map"`
+	Rows      map[string]string `json:"rows"`
+	RowList   []string          `json:"row_list"`
+	Password  string            `json:"password"`
+	Public    string            `json:"public"`
+	PublicMap map[string]string `json:"public_map"`
+}
+
+type compView struct {
+	*compCfg
+	Sec secView `json:"sec"`
+}
+
+func secOf(c *compCfg) secView {
+	v := secView{Secret: string(c.Secret), Secrets: []string{}, SecretMap: map[string]string{}, Rows: map[string]string{},
+		RowList: []string{}, Password: string(c.Password), Public: c.Public, PublicMap: map[string]string{}}
+	if c.SecretPtr != nil {
+		x := string(*c.SecretPtr)
+		v.SecretPtr = &x
+	}
+	for _, x := range c.Secrets {
+		v.Secrets = append(v.Secrets, string(x))
+	}
+	for k, x := range c.SecretMap {
+		v.SecretMap[k] = string(x)
+	}
+	for k, x := range c.Rows {
+		v.Rows[k] = string(x.Token)
+	}
+	for _, x := range c.RowList {
+		v.RowList = append(v.RowList, string(x.Token))
+	}
+	for k, x := range c.PublicMap {
+		v.PublicMap[k] = x
+	}
+	return v
 }
 
 func defCfg() component.Config {
@@ -142,7 +253,7 @@ type view struct {
 	Sampling     *samplingView                  `json:"sampling"`
 	MetricsLevel string                         `json:"metrics_level"`
 	Resource     map[string]*string             `json:"resource"`
-	Comps        map[string]map[string]*compCfg `json:"comps"`
+	Comps        map[string]map[string]*compView `json:"comps"`
 	Pipelines    map[string]map[string][]string `json:"pipelines"`
 	Extensions   []string                       `json:"sexts"`
 }
@@ -153,7 +264,7 @@ func viewOf(cfg *otelcol.Config) *view {
 		LogsEncoding: cfg.Service.Telemetry.Logs.Encoding,
 		MetricsLevel: cfg.Service.Telemetry.Metrics.Level.String(),
 		Resource:     cfg.Service.Telemetry.Resource,
-		Comps:        map[string]map[string]*compCfg{},
+		Comps:        map[string]map[string]*compView{},
 		Pipelines:    map[string]map[string][]string{},
 		Extensions:   []string{},
 	}
@@ -161,10 +272,10 @@ func viewOf(cfg *otelcol.Config) *view {
 		v.Sampling = &samplingView{Enabled: sp.Enabled, Initial: sp.Initial, Thereafter: sp.Thereafter}
 	}
 	sect := func(name string, m map[component.ID]component.Config) {
-		out := map[string]*compCfg{}
+		out := map[string]*compView{}
 		for id, c := range m {
 			if cc, ok := c.(*compCfg); ok {
-				out[id.String()] = cc
+				out[id.String()] = &compView{compCfg: cc, Sec: secOf(cc)}
 			}
 		}
 		v.Comps[name] = out
@@ -245,10 +356,10 @@ func load(i int, in input) (out output) {
 	}
 	out.View = viewOf(cfg)
 	if in.Eff {
-		if eff, err := effOf(cfg); err != nil {
+		if eff, leaks, err := effOf(cfg, in.Needles); err != nil {
 			out.EffErr = err.Error()
 		} else {
-			out.Eff = eff
+			out.Eff, out.Leaks = eff, leaks
 		}
 	}
 	if err := xconfmap.Validate(cfg); err != nil {
@@ -273,6 +384,13 @@ func main() {
 	if os.Args[1] == "walk" {
 		walk = true
 		os.Args = append(os.Args[:1], os.Args[2:]...)
+	}
+	if os.Args[1] == "builtin" {
+		if err := runBuiltin(os.Args[2], os.Args[3]); err != nil {
+			fmt.Fprintln(os.Stderr, err)
+			os.Exit(1)
+		}
+		return
 	}
 	if os.Args[1] == "seq" {
 		if err := runSeq(os.Args[2], os.Args[3]); err != nil {
@@ -361,8 +479,9 @@ func main() {
 }
 
 type seqIn struct {
-	Docs  []string            `json:"docs"`
-	Types map[string][]string `json:"types"`
+	Docs    []string            `json:"docs"`
+	Types   map[string][]string `json:"types"`
+	Needles [][]string          `json:"needles"` // per document
 }
 
 type seqOut struct {
@@ -396,7 +515,7 @@ func runSeq(in, out string) error {
 		}
 		res := seqOut{I: i}
 		for k, d := range s.Docs {
-			res.Loads = append(res.Loads, load(k, input{Doc: d, Types: s.Types, Eff: true}))
+			res.Loads = append(res.Loads, load(k, input{Doc: d, Types: s.Types, Eff: true, Needles: needlesOf(s, k)}))
 		}
 		b, _ := json.Marshal(res)
 		bw.Write(b)
@@ -410,4 +529,11 @@ func runSeq(in, out string) error {
 		return err
 	}
 	return o.Close()
+}
+
+func needlesOf(s seqIn, k int) []string {
+	if k < len(s.Needles) {
+		return s.Needles[k]
+	}
+	return nil
 }
